@@ -8,6 +8,7 @@
 //       (fds=k: the launch happens while the process has only k free file descriptors left)
 //   submit <id>
 //   cancel jobs=<n>          (cancelAllJobs when the n-th job body has started)
+//   nowait                   (destroy the queue right after the submits: the destructor must drain it)
 //   end
 #include "llbuild/Basic/ExecutionQueue.h"
 #include "llbuild/Basic/Subprocess.h"
@@ -78,6 +79,7 @@ static std::map<std::string, JobSpec*> gJobs;
 static ExecutionQueue* gQueue = nullptr;
 static std::atomic<int> gStarted{0}, gLaunches{0}, gCompletions{0}, gBodiesDone{0}, gSubmitted{0};
 static int gCancelAt = -1;
+static bool gNoWait = false;
 static std::mutex gDoneMutex;
 static std::condition_variable gDoneCv;
 static std::string gChild;
@@ -206,6 +208,8 @@ int main(int argc, char** argv) {
       submits.push_back(t[1]);
     } else if (t[0] == "cancel") {
       gCancelAt = atoi(opt(t, "jobs", "-1").c_str());
+    } else if (t[0] == "nowait") {
+      gNoWait = true;
     } else if (t[0] == "end") {
       break;
     }
@@ -222,14 +226,15 @@ int main(int argc, char** argv) {
     for (auto& s : submits)
       if (gJobs.count(s)) submit(gJobs[s]);
     // like the build engine, wait for every submitted body and every launched process
-    {
+    if (!gNoWait) {
       std::unique_lock<std::mutex> l(gDoneMutex);
       gDoneCv.wait(l, [] { return gBodiesDone.load() == gSubmitted.load() && gCompletions.load() >= gLaunches.load(); });
     }
-    out("all-reported bodies=" + std::to_string(gBodiesDone.load()) + " launches=" + std::to_string(gLaunches.load()) +
+    out(std::string(gNoWait ? "not-waiting" : "all-reported") + " bodies=" + std::to_string(gBodiesDone.load()) + " launches=" + std::to_string(gLaunches.load()) +
         " completions=" + std::to_string(gCompletions.load()));
-    gQueue = nullptr;
+    out("destroying");
   }
+  gQueue = nullptr;
   out("queue-destroyed");
   // no child of ours may be left (alive or zombie)
   int status;
